@@ -54,8 +54,10 @@ func (h traceLogHandler) Handle(_ context.Context, r slog.Record) error {
 	return nil
 }
 
-// evalOrder wraps a recording handler with the list, twice from the same
-// slice, and sends two requests through each wrapped handler.
+// evalOrder wraps four route handlers with the list: three times in a row from
+// the same caller-owned slice and once with explicit arguments.  After every
+// Wrap call the slice must be unchanged and every chain built so far must run
+// the middlewares in list order, then its own route's handler.
 func evalOrder(c *runlib.Ctx, w witness) {
 	c.Eval()
 	c.Family("order")
@@ -102,98 +104,133 @@ func evalOrder(c *runlib.Ctx, w witness) {
 		want = append(want, "leave:"+w.List[i:i+1])
 	}
 
-	gotPath := ""
+	gotPath, gotRoute := "", -1
 	var client *httptest.ResponseRecorder
 	chainBad := ""
-	h := http.HandlerFunc(func(rw http.ResponseWriter, r *http.Request) {
-		trace = append(trace, "handler")
-		gotPath, _ = r.Context().Value(traceKey{}).(string)
+	route := func(id int) http.Handler {
+		return http.HandlerFunc(func(rw http.ResponseWriter, r *http.Request) {
+			trace = append(trace, "handler")
+			gotRoute = id
+			gotPath, _ = r.Context().Value(traceKey{}).(string)
 
-		// What the handler writes must reach the client: follow the wrappers
-		// down to the client's writer before writing (a writer that wraps
-		// itself would otherwise recurse until the stack is exhausted).
-		var cur http.ResponseWriter = rw
-		for steps := 0; ; steps++ {
-			u, ok := cur.(httputil.Wrapper)
-			if !ok {
-				break
+			// What the handler writes must reach the client: follow the
+			// wrappers down to the client's writer before writing (a writer
+			// that wraps itself would otherwise recurse until the stack is
+			// exhausted).
+			var cur http.ResponseWriter = rw
+			for steps := 0; ; steps++ {
+				u, ok := cur.(httputil.Wrapper)
+				if !ok {
+					break
+				}
+
+				if steps > len(w.List) {
+					chainBad = "the handler's response writer unwraps in a cycle"
+
+					return
+				}
+
+				cur = u.Unwrap()
 			}
 
-			if steps > len(w.List) {
-				chainBad = "the handler's response writer unwraps in a cycle"
+			if cur != http.ResponseWriter(client) {
+				chainBad = "the handler's response writer does not unwrap to the client's writer"
 
 				return
 			}
 
-			cur = u.Unwrap()
+			rw.WriteHeader(http.StatusTeapot)
+		})
+	}
+
+	// serve sends one request through chain id and compares the trace.
+	serve := func(wrapped http.Handler, id int, when string) (ok bool) {
+		trace, gotPath, gotRoute, chainBad = nil, "?", -1, ""
+		rec := httptest.NewRecorder()
+		client = rec
+		r := httptest.NewRequest(http.MethodGet, "/order", nil)
+		if pv, _ := runlib.Try(func() { wrapped.ServeHTTP(rec, r) }); pv != nil {
+			fail("panic", fmt.Sprintf("chain %d %s: ServeHTTP panicked: %v", id, when, pv))
+
+			return false
 		}
 
-		if cur != http.ResponseWriter(client) {
-			chainBad = "the handler's response writer does not unwrap to the client's writer"
-
-			return
+		switch {
+		case chainBad != "":
+			fail("writer-chain", fmt.Sprintf("chain %d %s: %s", id, when, chainBad))
+		case !slices.Equal(trace, want):
+			fail("order", fmt.Sprintf("chain %d %s: trace %v, want %v", id, when, trace, want))
+		case gotRoute != id:
+			fail("route", fmt.Sprintf("chain %d %s: the request reached the handler of route %d", id, when, gotRoute))
+		case gotPath != wantPath:
+			fail("path", fmt.Sprintf("chain %d %s: the handler's request came through %q, want %q", id, when, gotPath, wantPath))
+		case rec.Code != http.StatusTeapot:
+			fail("response", fmt.Sprintf("chain %d %s: client got code %d", id, when, rec.Code))
+		default:
+			return true
 		}
 
-		rw.WriteHeader(http.StatusTeapot)
-	})
+		return false
+	}
 
+	// Chains 0..2 are built from the SAME caller-owned slice, one route each;
+	// chain 3 from explicit arguments (a fresh temporary slice).  After every
+	// Wrap call the slice must be unchanged and every chain built so far must
+	// still run the middlewares in list order.
+	const numChains = 4
 	orig := slices.Clone(mws)
-	for round := 0; round < 2; round++ {
+	var chains []http.Handler
+	for id := 0; id < numChains; id++ {
 		wraps = 0
+		h := route(id)
 		var wrapped http.Handler
-		if pv, _ := runlib.Try(func() { wrapped = httputil.Wrap(h, mws...) }); pv != nil || wrapped == nil {
-			fail("panic", fmt.Sprintf("Wrap panicked or returned nil: %v", pv))
+		pv, _ := runlib.Try(func() {
+			switch {
+			case id < numChains-1:
+				wrapped = httputil.Wrap(h, mws...)
+			case len(orig) == 0:
+				wrapped = httputil.Wrap(h)
+			case len(orig) == 1:
+				wrapped = httputil.Wrap(h, orig[0])
+			case len(orig) == 2:
+				wrapped = httputil.Wrap(h, orig[0], orig[1])
+			case len(orig) == 3:
+				wrapped = httputil.Wrap(h, orig[0], orig[1], orig[2])
+			case len(orig) == 4:
+				wrapped = httputil.Wrap(h, orig[0], orig[1], orig[2], orig[3])
+			default:
+				wrapped = httputil.Wrap(h, slices.Clone(orig)...)
+			}
+		})
+		if pv != nil || wrapped == nil {
+			fail("panic", fmt.Sprintf("Wrap call %d panicked or returned nil: %v", id, pv))
 
 			return
 		}
 
 		if wraps != nRec {
-			fail("wrap-calls", fmt.Sprintf("%d Middleware.Wrap calls for %d recording middlewares", wraps, nRec))
+			fail("wrap-calls", fmt.Sprintf("Wrap call %d: %d Middleware.Wrap calls for %d recording middlewares", id, wraps, nRec))
 
 			return
 		}
 
 		if !slices.Equal(mws, orig) {
-			fail("slice-modified", "the caller's middleware slice was modified")
+			fail("slice-modified", fmt.Sprintf("Wrap call %d modified the caller's middleware slice", id))
 
 			return
 		}
 
-		for req := 0; req < 2; req++ {
-			trace, gotPath, chainBad = nil, "?", ""
-			rec := httptest.NewRecorder()
-			client = rec
-			r := httptest.NewRequest(http.MethodGet, "/order", nil)
-			if pv, _ := runlib.Try(func() { wrapped.ServeHTTP(rec, r) }); pv != nil {
-				fail("panic", fmt.Sprintf("ServeHTTP panicked: %v", pv))
-
+		chains = append(chains, wrapped)
+		for j, ch := range chains {
+			if !serve(ch, j, fmt.Sprintf("after Wrap call %d", id)) {
 				return
 			}
+		}
+	}
 
-			if chainBad != "" {
-				fail("writer-chain", fmt.Sprintf("wrap %d request %d: %s", round, req, chainBad))
-
-				return
-			}
-
-			if !slices.Equal(trace, want) {
-				fail("order", fmt.Sprintf("wrap %d request %d: trace %v, want %v", round, req, trace, want))
-
-				return
-			}
-
-			if gotPath != wantPath {
-				fail("path", fmt.Sprintf("wrap %d request %d: the handler's request came through %q, want %q",
-					round, req, gotPath, wantPath))
-
-				return
-			}
-
-			if rec.Code != http.StatusTeapot {
-				fail("response", fmt.Sprintf("wrap %d request %d: client got code %d", round, req, rec.Code))
-
-				return
-			}
+	for j, ch := range chains {
+		if !serve(ch, j, "second request") {
+			return
 		}
 	}
 }
